@@ -3,6 +3,7 @@ package main
 import (
 	"fmt"
 	"os"
+	"sync"
 	"path/filepath"
 	"sort"
 	"strconv"
@@ -85,6 +86,7 @@ func (s *ScriptSensor) SetMovingAvg(avg float64)                  { s.Avg = avg 
 // ---------- memory persistence ----------
 
 type memPersistence struct {
+	mu      sync.Mutex
 	pwmData map[string]map[int]float64
 	pwmMaps map[string]map[int]int
 	Calls   []string
@@ -95,6 +97,8 @@ func newMemPersistence() *memPersistence {
 }
 func (p *memPersistence) Init() error { return nil }
 func (p *memPersistence) LoadFanPwmData(fan fans.Fan) (map[int]float64, error) {
+	p.mu.Lock()
+	defer p.mu.Unlock()
 	p.Calls = append(p.Calls, "LoadFanPwmData:"+fan.GetId())
 	if d, ok := p.pwmData[fan.GetId()]; ok {
 		return d, nil
@@ -102,6 +106,8 @@ func (p *memPersistence) LoadFanPwmData(fan fans.Fan) (map[int]float64, error) {
 	return nil, os.ErrNotExist
 }
 func (p *memPersistence) SaveFanPwmData(fan fans.Fan) error {
+	p.mu.Lock()
+	defer p.mu.Unlock()
 	p.Calls = append(p.Calls, "SaveFanPwmData:"+fan.GetId())
 	m := map[int]float64{}
 	for k, v := range *fan.GetFanRpmCurveData() {
@@ -111,10 +117,14 @@ func (p *memPersistence) SaveFanPwmData(fan fans.Fan) error {
 	return nil
 }
 func (p *memPersistence) DeleteFanPwmData(fan fans.Fan) error {
+	p.mu.Lock()
+	defer p.mu.Unlock()
 	delete(p.pwmData, fan.GetId())
 	return nil
 }
 func (p *memPersistence) LoadFanPwmMap(fanId string) (map[int]int, error) {
+	p.mu.Lock()
+	defer p.mu.Unlock()
 	p.Calls = append(p.Calls, "LoadFanPwmMap:"+fanId)
 	if d, ok := p.pwmMaps[fanId]; ok {
 		return d, nil
@@ -122,6 +132,8 @@ func (p *memPersistence) LoadFanPwmMap(fanId string) (map[int]int, error) {
 	return nil, os.ErrNotExist
 }
 func (p *memPersistence) SaveFanPwmMap(fanId string, m map[int]int) error {
+	p.mu.Lock()
+	defer p.mu.Unlock()
 	p.Calls = append(p.Calls, "SaveFanPwmMap:"+fanId)
 	c := map[int]int{}
 	for k, v := range m {
@@ -131,6 +143,8 @@ func (p *memPersistence) SaveFanPwmMap(fanId string, m map[int]int) error {
 	return nil
 }
 func (p *memPersistence) DeleteFanPwmMap(fanId string) error {
+	p.mu.Lock()
+	defer p.mu.Unlock()
 	delete(p.pwmMaps, fanId)
 	return nil
 }
